@@ -46,11 +46,11 @@ ASSUMPTIONS = [
     "numpy.linalg.svd returns factors with s sorted decreasingly and non-negative (numpy's contract, exercised by the repository tests); orthonormality is not needed for (a)",
     "the minimum-norm least-squares characterisation of the truncated SVD formula is trusted mathematics",
     "(d) first-step-lands-on-solution with real LAPACK in binary64 is outside this technique",
-    "(e) Newton system: unit knob weights, probe step 1e-3, target weights 1 or 2, non-Broyden steps; the solver keeps its own point when the knobs agree with it within 1e-12 (Optimize.step), so the system may be taken at either point; exploration of the last step stops right after the system is recorded",
+    "(e) Newton system: unit knob weights, probe step 1e-3, target weights 1 or 2, non-Broyden steps; the solver keeps its own point when the knobs agree with it within 1e-12 (Optimize.step), so the system may be taken at either point; every step is cut right after its system is recorded (an interrupted step followed by reload(0) is itself a legal history)",
 ]
 BOUNDS = {
     "quick": "(a) shapes m,n <= 3 (all 9), every cutoff, two successive calls; (b) 1 and 2 knobs; (c) 1x1, 2x1, 1x2, 2x2 linear problems, native / rescaled / scalar views; (e) Newton system = finite-difference Jacobian of the current problem at the current point: 8 call sequences on 1x1 / 1x2 / 2x1 that return to the same point with another configuration (target off for one call, enabled later, weight or requested value changed, active knob swapped)",
-    "thorough": "(a) adds 4x2, 2x4, 4x4 (single call); (c) 2x2 with both rescale and scalar",
+    "thorough": "(a) adds 4x2, 2x4, 4x4 (single call); (c) 2x2 with both rescale and scalar; (e) the same sequences with every step but the last run to its end",
 }
 OUTSIDE = "clause (d) with real LAPACK and binary64 rounding; shapes beyond 4x4"
 REQUIRED_CLASSES = ["lstsq_checked", "lstsq_second_call", "roundtrip_checked", "jacobian_checked", "rank_deficient_path", "newton_system_checked"]
@@ -299,7 +299,10 @@ def run_newton(ex, case):
     for pos, name in enumerate(calls):
         det["calls"].append(name)
         n0 = len(P.rec.svd_inputs)
-        P.rec.stop_next = (pos == last_step)     # nothing after the last system is looked at
+        # every step is cut right after its system has been recorded (as if the user's action had been
+        # interrupted there): what follows the least-squares call is the subject of C09/C10/C15, and a
+        # reload(0) comes next in every multi-call sequence
+        P.rec.stop_next = True if case.get("cut", True) else (pos == last_step)
         kw = {}
         if name == "reload0":
             opt.reload(0)
@@ -393,14 +396,15 @@ def cases(tier):
             if (nk, nt) == (2, 2) and view == "rescaled" and tier == "quick":
                 continue
             out.append({"mode": "jacobian", "nk": nk, "nt": nt, "view": view})
-    import sys
-    from symx import driver
     for sc in NEWTON_SCENARIOS:
-        c = {"mode": "newton", "scenario": sc}
-        if len(NEWTON_SCENARIOS[sc][2]) > 1 or NEWTON_SCENARIOS[sc][0] + NEWTON_SCENARIOS[sc][1] > 2:
-            out += driver.split_case(sys.modules[__name__], c, 8)
-        else:
-            out.append(c)
+        out.append({"mode": "newton", "scenario": sc})
+    if tier != "quick":
+        # the same sequences with every step but the last run to its end (about 300 000 paths)
+        import sys
+        from symx import driver
+        for sc in NEWTON_SCENARIOS:
+            if len(NEWTON_SCENARIOS[sc][2]) > 1:
+                out += driver.split_case(sys.modules[__name__], {"mode": "newton", "scenario": sc, "cut": False}, 8)
     if tier != "quick":
         for (m, n) in ((4, 2), (2, 4), (4, 4)):
             out.append({"mode": "lstsq", "m": m, "n": n, "calls": 1})
